@@ -33,7 +33,7 @@ pub const ACCOUNTS: &[(u64, &str)] = &[
 ];
 /// address used for id 0 (not a contract, owns nothing)
 pub const NOBODY: &str = "nocontract";
-pub const LEDGER_IDS: [u64; 20] = [0, 1, 2, 3, 4, 10, 11, 12, 100, 101, 102, 103, 104, 105, 106, 110, 111, 120, 121, 130];
+pub const LEDGER_IDS: [u64; 21] = [0, 1, 2, 3, 4, 10, 11, 12, 13, 100, 101, 102, 103, 104, 105, 106, 110, 111, 120, 121, 130];
 pub const ALLOW_IDS: [u64; 7] = [101, 102, 103, 104, 105, 106, 110];
 pub const ICE: u64 = 105;
 pub const ROL: u64 = 106;
@@ -148,6 +148,24 @@ pub fn gen_cfg(r: &mut Rng, h: u64, seed: u64, force: Option<(bool, u32)>) -> Cf
             registered: false,
             opened: true,
             dp: dp2,
+        });
+    }
+    // registry-capacity deployments: a fourth market with the engine's decimals, not registered at deployment, so
+    // that the insurance fund's capacity of three can be reached and exceeded.  Decided from (seed, h) without
+    // consuming PRNG draws: every other history stays exactly as it was.
+    if nv == 3 && vamms.len() == 3 && (seed.wrapping_mul(2654435761).wrapping_add(h.wrapping_mul(40503)) >> 3) % 3 == 0 {
+        vamms.push(VammInit {
+            q: 1000 * d,
+            b: 100 * d,
+            period: 3600,
+            toll: 0,
+            spread: bp(10),
+            fluct: 0,
+            cap: 0,
+            oic: 0,
+            registered: false,
+            opened: true,
+            dp,
         });
     }
     let mut funds: Vec<(u64, u128)> = ALLOW_IDS.iter().map(|id| (*id, 5000 * d)).collect();
